@@ -163,7 +163,13 @@ func (p *Path) slice(xt types.Type, x, lo, hi, max Value) Value {
 		n := x.length()
 		// a symbolic upper bound on a string: keep the length symbolic instead
 		// of forking over every value; the contents become unobservable.
-		if ht, ok := hi.(*smt.Term); ok && !ht.IsConst() && (lo == nil || lo.(*smt.Term).IsConst()) {
+		if hi != nil {
+			hi = p.resolve(hi.(*smt.Term))
+		}
+		if lo != nil {
+			lo = p.resolve(lo.(*smt.Term))
+		}
+		if ht, ok := hi.(*smt.Term); ok && !ht.IsConst() && (lo == nil || lo.(*smt.Term).IsConst()) && hasFP(ht) {
 			l := int64(0)
 			if lo != nil {
 				l, _ = asInt(lo)
@@ -989,4 +995,18 @@ func (p *Path) mustAssumeASCII(b *smt.Term) {
 	if r != smt.Unsat {
 		p.abortf("range over string with possibly non-ASCII symbolic bytes")
 	}
+}
+
+// hasFP reports whether t depends on a floating-point sub-term (such bounds
+// are expensive to enumerate, so string slices keep their length symbolic).
+func hasFP(t *smt.Term) bool {
+	if t.Sort.K == smt.SFP {
+		return true
+	}
+	for _, a := range t.Args {
+		if hasFP(a) {
+			return true
+		}
+	}
+	return false
 }
